@@ -12,6 +12,12 @@ for p in props:
     if os.path.exists(modp):
         mod = importlib.import_module("checks." + pid.lower())
         meta = getattr(mod, "META", None)
+    if meta is not None and not meta.get("_more_applied"):
+        from checks.meta_more import MORE
+        if pid in MORE:
+            meta = dict(meta)
+            meta["text"] = meta["text"].rstrip() + " " + MORE[pid][0]
+            meta["technique"] = meta["technique"].rstrip() + "; " + MORE[pid][1]
     if meta is None or meta.get("not_applicable"):
         na.append(dict(property_id=pid, reason=(meta or {}).get("not_applicable", "check not yet built in this round; see DESIGN.md §4 for the planned structural clauses")))
         continue
